@@ -166,9 +166,9 @@ def model_check_pay(binary, workdir, tier):
 
 
 MC_FAMILIES = {  # cfg file, (quick depth, thorough depth)
-    "did": ("MC_Did.cfg", (6, 8)), "super": ("MC_Super.cfg", (6, 8)), "reward": ("MC_Reward.cfg", (6, 7)), "auth": ("MC_Auth.cfg", (6, 7)),
+    "did": ("MC_Did.cfg", (6, 8)), "super": ("MC_Super.cfg", (5, 7)), "reward": ("MC_Reward.cfg", (6, 7)), "auth": ("MC_Auth.cfg", (6, 7)),
 }
-MC_FAMILY_CFG = {"accounts": 8, "dids": 2, "validators": 1, "balance": 100000, "blockReward": 840}
+MC_FAMILY_CFG = {"accounts": 8, "dids": 2, "validators": 2, "balance": 10000000, "blockReward": 840}
 
 
 def model_check_families(binary, workdir, tier):
